@@ -181,14 +181,21 @@ def check_eig(item, acc):
                 with CH.patched(EC, np=CH.NumpyShim(np, fake)):
                     return fn(hh, **kw)
             outs = [res for script, res, ch, pruned in CH.explore(run)]
-            assert len(outs) == 1
-            return outs[0]
+            # one execution per menu entry; a start vector drawn through another API (e.g. randn) may add sign variants:
+            # every one of them must satisfy the property - the first violating result is returned
+            return outs
 
         # ---- CEC
         acc.evaluations += 1
         tol = 1e-7
         try:
-            c = runner(h, EC.CEC_centrality, x0)
+            cs = runner(h, EC.CEC_centrality, x0)
+            c = cs[0]
+            for cand in cs:
+                vv = np.array([cand[i] for i in range(n)])
+                if sorted(cand.keys()) != list(range(n)) or not np.isfinite(vv).all() or (vv <= 0).any() or abs(np.linalg.norm(vv) - 1) > 1e-9:
+                    c = cand
+                    break
             v = np.array([c[i] for i in range(n)])
             if sorted(c.keys()) != list(range(n)) or not np.isfinite(v).all() or (v <= 0).any() or abs(np.linalg.norm(v) - 1) > 1e-9:
                 bad("CEC/shape", "start %r: %r is not a positive unit-2-norm vector" % (x0, v.tolist()))
@@ -199,7 +206,7 @@ def check_eig(item, acc):
                     bad("CEC/eigen-equation", "start %r: residual %.3g > %.3g" % (x0, res, normW * tol + 1e-9))
                 elif abs(rho - lam[-1]) > normW * tol / v.min() + 1e-9:
                     bad("CEC/not-dominant", "start %r: Rayleigh quotient %.9g, lambda_max %.9g" % (x0, rho, lam[-1]))
-                c2 = runner(h2, EC.CEC_centrality, [x0[perm.index(i)] for i in range(n)])
+                c2 = runner(h2, EC.CEC_centrality, [x0[perm.index(i)] for i in range(n)])[0]
                 v2 = np.array([c2[perm[i]] for i in range(n)])
                 if np.abs(v2 - v).max() > 1e-9:
                     bad("CEC/relabelling", "start %r: relabelled hypergraph gives %r instead of %r" % (x0, v2.tolist(), v.tolist()))
@@ -212,7 +219,13 @@ def check_eig(item, acc):
         acc.evaluations += 1
         tol = 1e-6
         try:
-            c = runner(h, EC.HEC_centrality, x0)
+            cs = runner(h, EC.HEC_centrality, x0)
+            c = cs[0]
+            for cand in cs:
+                vv = np.array([cand[i] for i in range(n)])
+                if not np.isfinite(vv).all() or (vv <= 0).any():
+                    c = cand
+                    break
             v = np.array([c[i] for i in range(n)])
             if sorted(c.keys()) != list(range(n)) or not np.isfinite(v).all() or (v <= 0).any() or abs(np.abs(v).sum() - 1) > 1e-9:
                 bad("HEC/shape", "start %r: %r is not a positive unit-1-norm vector" % (x0, v.tolist()))
@@ -226,7 +239,7 @@ def check_eig(item, acc):
                 bound = ((1 + t) / (1 - t)) ** (k - 1) if t < 1 else np.inf
                 if r.max() / r.min() > bound * (1 + 1e-9):
                     bad("HEC/eigen-equation", "start %r: ratios %r spread %.9g > %.9g" % (x0, r.tolist(), r.max() / r.min(), bound))
-                c2 = runner(h2, EC.HEC_centrality, [x0[perm.index(i)] for i in range(n)])
+                c2 = runner(h2, EC.HEC_centrality, [x0[perm.index(i)] for i in range(n)])[0]
                 v2 = np.array([c2[perm[i]] for i in range(n)])
                 if np.abs(v2 - v).max() > 1e-9:
                     bad("HEC/relabelling", "start %r: relabelled hypergraph gives %r instead of %r" % (x0, v2.tolist(), v.tolist()))
